@@ -930,11 +930,17 @@ impl TypeLayout {
     }
 
     pub fn assume_type_of_self(self, user_data: &AssocFileData) -> TypeLayout {
-        if self.is_class_self() {
-            TypeLayout::Class(user_data.get_type_of_executing_class().unwrap().clone())
-        } else {
-            self
+        if !self.is_class_self() {
+            return self;
         }
+
+        // Outside of a class there is nothing `Self` could stand for: leave the type as it
+        // is, so that the lookup that follows reports it.
+        let Some(class) = user_data.get_type_of_executing_class() else {
+            return self;
+        };
+
+        TypeLayout::Class(class.clone())
     }
 
     pub fn update_all_references_to_class_self(&self, class_type: ClassType) -> TypeLayout {
